@@ -1,4 +1,6 @@
 import SamplyModel.Lemmas.LifeStep
+import SamplyModel.Lemmas.ConvSplit
+import SamplyModel.Props.C01
 /-!
 # C17 — process / thread names and lifetimes follow COMM, EXEC, FORK and EXIT
 
@@ -26,6 +28,11 @@ never seen) made a process entry `<pid>`, start 0, never ended. The pre-fix hand
 history inside the grammar. With the repair (`get_existing_by_pid`) the hypothesis `Life.orphanFree` that excluded
 exactly this input is gone.
 
+**Samples and EXEC** (`C17_exec_splits_samples`): along every history inside the grammar, the samples of a pid
+accepted before an EXEC of that pid and those accepted after it are reported under *different process entries*
+(`pid` vs `pid.1`, …): the output samples sit on the entries `C01_conservation_entry` names, and the pid suffix of
+every sample before the EXEC is strictly smaller than that of every sample after it.
+
 The property text itself is restated on the specification side, for every state, by
 `C17_spec_comm_sets_name`, `C17_spec_fork_inherits_name`, `C17_spec_fork_inherits_process_name`,
 `C17_spec_fork_sets_start`, `C17_spec_exit_sets_end`, `C17_spec_exec_splits` (+ `C17_spec_alive_unique` for the
@@ -40,19 +47,6 @@ First instalment (kept): what the individual record handlers do to the entry tab
 -/
 open Conv ConvSpec
 
-theorem modifyNth_get {α} (l : List α) (i : Nat) (f : α → α) : (modifyNth l i f)[i]? = (l[i]?).map f := by
-  induction l generalizing i with
-  | nil => simp [modifyNth]
-  | cons x xs ih => cases i <;> simp [modifyNth, ih]
-
-theorem modifyNth_get_ne {α} (l : List α) (i j : Nat) (f : α → α) (h : i ≠ j) :
-    (modifyNth l i f)[j]? = l[j]? := by
-  induction l generalizing i j with
-  | nil => simp [modifyNth]
-  | cons x xs ih =>
-    cases i <;> cases j <;> simp [modifyNth] at h ⊢
-    exact ih _ _ h
-
 /-- EXIT of a non-main thread that is bound: its thread entry gets the exit time as end time, every other
 thread entry and every process entry is untouched. -/
 theorem C17_thread_exit_sets_end (s : St) (p : ProcC) (tid time : Nat) (t : ThreadC)
@@ -64,10 +58,10 @@ theorem C17_thread_exit_sets_end (s : St) (p : ProcC) (tid time : Nat) (t : Thre
   unfold removeThread
   simp only [ht]
   refine ⟨?_, ?_, rfl, ?_⟩
-  · simp [putProc, setTEnd, setT, modifyNth_get]
+  · simp [putProc, setTEnd, setT, LifeL.modifyNth_get]
   · intro j hj
     simp only [putProc, setTEnd, setT]
-    exact modifyNth_get_ne _ _ _ _ (Ne.symm hj)
+    exact LifeL.modifyNth_get_ne _ _ _ _ (Ne.symm hj)
   · simp only [alGet, alDel]
     rw [Option.map_eq_none_iff, List.find?_eq_none]
     intro x hx
@@ -85,10 +79,10 @@ theorem C17_comm_renames_thread (s : St) (p : ProcC) (tid time : Nat) (name : St
   unfold renameThread
   simp only [hne, if_false, ht, hn, hr, Bool.false_eq_true]
   refine ⟨?_, ?_, rfl⟩
-  · simp [putProc, setTName, setT, modifyNth_get]
+  · simp [putProc, setTName, setT, LifeL.modifyNth_get]
   · intro j hj
     simp only [putProc, setTName, setT]
-    exact modifyNth_get_ne _ _ _ _ (Ne.symm hj)
+    exact LifeL.modifyNth_get_ne _ _ _ _ (Ne.symm hj)
 
 /-- A COMM that repeats the current name changes nothing at all. -/
 theorem C17_comm_same_name_noop (s : St) (p : ProcC) (tid time : Nat) (name : String) (th : ThreadC)
@@ -322,7 +316,7 @@ theorem C17_spec_exec_splits (s : Life.S) (pid : Nat) (name : String) (t pi : Na
     pi ≠ s.ps.length ∧ 0 < Life.countP s pid ∧
     ((∀ (j : Nat) (y : Life.PInc), s.ps[j]? = some y → y.alive = true → y.pid = pid → j = pi) →
       Life.curProc (Life.step s (.comm pid pid name true t)) pid = some s.ps.length) := by
-  have hlt : pi < s.ps.length := lt_of_getElem?_some hx
+  have hlt : pi < s.ps.length := LifeL.lt_of_getElem?_some hx
   obtain ⟨x', hx', hq⟩ := findIdx_some hp
   rw [hx] at hx'; cases hx'
   simp only [Bool.and_eq_true, beq_iff_eq] at hq
@@ -380,3 +374,38 @@ theorem C17_spec_alive_unique (ref : Nat) (rs : List Rec) (hg : Life.grammarOk r
   have h := sim_run { ref := ref } rs rfl hg
   obtain ⟨p, hb, hh⟩ := h.live.backP j y hy hal
   rw [h.live.curProc_bound hb, hh]
+
+
+/-! ### Samples before and after an EXEC lie in different process entries -/
+
+/-- **EXEC splits the samples of a process.** For every configuration with default options and every history
+`pre ++ [EXEC of pid] ++ post` inside the grammar: the accepted samples of the whole history are those of `pre`
+followed by those taken after the EXEC (`later`); every sample of `pid` taken before the EXEC is tagged with a
+pid suffix strictly smaller than every sample of `pid` taken after it — i.e. they belong to different process
+incarnations, rendered `idStr pid k` with different `k` (`100` / `100.1` / …); and (`C01_conservation_entry`) the
+recorded samples of `views (run cfg …)` sit, one for one, on the entries with exactly these pid / tid strings. -/
+theorem C17_exec_splits_samples (cfg : Config) (pre post : List Rec) (pid : Nat) (name : String) (t : Nat)
+    (hr : cfg.reuse = false)
+    (hg : Life.grammarOk cfg.ref (pre ++ .comm pid pid name true t :: post) = true) :
+    ∃ later, acceptedInc cfg.ref (pre ++ .comm pid pid name true t :: post) = acceptedInc cfg.ref pre ++ later ∧
+      (∀ a ∈ acceptedInc cfg.ref pre, ∀ b ∈ later, a.pid = pid → b.pid = pid → a.psuffix < b.psuffix) ∧
+      List.Perm
+        ((views (run cfg (pre ++ .comm pid pid name true t :: post))).flatMap
+          (fun v => (C01_recorded v).map (fun o => (v.pid, v.tid, o.t, o.weight))))
+        ((acceptedInc cfg.ref pre ++ later).map
+          (fun a => (idStr a.pid a.psuffix, idStr a.tid a.tsuffix, a.t - cfg.ref, 1))) := by
+  obtain ⟨later, h1, h2⟩ := exec_splits cfg pre post pid name t hr hg
+  refine ⟨later, h1, h2, ?_⟩
+  rw [← h1]
+  exact C01_conservation_entry cfg _ hr hg
+
+/-- non-vacuity: the reviewer's example — a sample before and one after the EXEC of pid 100 -/
+example : Life.grammarOk 1000 [.comm 100 100 "app" false 800, .sample 100 100 1000 false 1 0x10 [],
+      .comm 100 100 "new" true 1500, .sample 100 100 2000 false 1 0x10 []] = true ∧
+    acceptedInc 1000 [.comm 100 100 "app" false 800, .sample 100 100 1000 false 1 0x10 [],
+      .comm 100 100 "new" true 1500, .sample 100 100 2000 false 1 0x10 []] =
+      [⟨100, 100, 1000, 0, 0⟩, ⟨100, 100, 2000, 1, 1⟩] ∧
+    (views (run { ref := 1000 } [.comm 100 100 "app" false 800, .sample 100 100 1000 false 1 0x10 [],
+      .comm 100 100 "new" true 1500, .sample 100 100 2000 false 1 0x10 []])).map
+        (fun v => (v.pid, v.tid, v.samples.map (·.t))) = [("100", "100", [0]), ("100.1", "100.1", [1000])] := by
+  decide
